@@ -99,7 +99,7 @@ def _disp1_class(ctx, m, subj, arms, hier, tag, K, table) -> Ob:
     what = A.unparse(arm.test)[:70] if arm.test is not None else "else"
     return bad("DISP-1", m.qualname, key, where,
                f"unsupported statement class ast.{K} reaches arm {arm.index} ({what}) which does not refuse it with NotImplementedError",
-               [f"arm body: {A.unparse(ast.Module(arm.body, [])).splitlines()[0][:100]}"])
+               [f"arm body: {(A.unparse(ast.Module(arm.body, [])).splitlines() or ['<empty>'])[0][:100]}"])
 
 
 def _front_methods(ctx):
@@ -645,7 +645,7 @@ def disp6(ctx) -> List[Ob]:
             if isinstance(t.op, ast.And):
                 return False if False in vs else (None if None in vs else True)
             return True if True in vs else (None if None in vs else False)
-        if isinstance(t, ast.Compare) and len(t.ops) == 1 and isinstance(t.left, ast.Attribute) and t.left.attr == "kind":
+        if isinstance(t, ast.Compare) and len(t.ops) == 1 and ((isinstance(t.left, ast.Attribute) and t.left.attr == "kind") or (isinstance(t.left, ast.Name) and t.left.id in kind_aliases)):
             r = t.comparators[0]
             if isinstance(t.ops[0], (ast.Eq, ast.NotEq)) and isinstance(r, ast.Constant):
                 v = r.value == kind
@@ -654,6 +654,9 @@ def disp6(ctx) -> List[Ob]:
                 v = kind in [e_.value for e_ in r.elts]
                 return v if isinstance(t.ops[0], ast.In) else not v
         return None
+
+    # locals that name the kind (`kind = region.kind`)
+    kind_aliases = {a_.targets[0].id for a_ in A.walk_no_nested(fn.node) if isinstance(a_, ast.Assign) and len(a_.targets) == 1 and isinstance(a_.targets[0], ast.Name) and isinstance(a_.value, ast.Attribute) and a_.value.attr == "kind"}
 
     def _run_kind(stmts, kind: str) -> str:
         """'refused' when a run of the arm for this kind reaches a refusing statement before anything else
@@ -677,13 +680,13 @@ def disp6(ctx) -> List[Ob]:
                     rb, ro = _run_kind(st.body, kind), _run_kind(st.orelse, kind)
                     if rb == ro and rb != "fall":
                         return rb
-                    if "refused" in (rb, ro) and ".kind" in A.unparse(st.test):
+                    if "refused" in (rb, ro) and (".kind" in A.unparse(st.test) or A.names_in(st.test) & kind_aliases):
                         return "refused"
         return "fall"
 
     for arm in arms:
         if arm.test is not None and "RegionBlock" in _named_classes(arm.test):
-            mentioned = {c.value for n in A.walk_no_nested(ast.Module(arm.body, [])) if isinstance(n, ast.If) and ".kind" in A.unparse(n.test) for c in ast.walk(n.test) if isinstance(c, ast.Constant) and isinstance(c.value, str)}
+            mentioned = {c.value for n in A.walk_no_nested(ast.Module(arm.body, [])) if isinstance(n, ast.If) and (".kind" in A.unparse(n.test) or A.names_in(n.test) & kind_aliases) for c in ast.walk(n.test) if isinstance(c, ast.Constant) and isinstance(c.value, str)}
             for kind_ in set(kinds) | mentioned:
                 if kind_ in mentioned and _run_kind(arm.body, kind_) != "refused":
                     handled[kind_] = "abstract run of the region arm over the tests on .kind"
